@@ -496,6 +496,44 @@ def regStep2 (db : DB) (t : Name) (p : Nat) : DB := addProducer db (topicKey t) 
 def delTopicStep1 (db : DB) (t : Name) : DB := removeRegistrations db (findRegistrations db .channel t star)
 def delTopicStep2 (db : DB) (t : Name) : DB := removeRegistrations db (findRegistrations db .topic t [])
 
+/-- `/channel/create`: `AddRegistration(channel key)`, then `AddRegistration(topic key)` -/
+def createChanStep1 (db : DB) (t c : Name) : DB := addRegistration db (chanKey t c)
+def createChanStep2 (db : DB) (t : Name) : DB := addRegistration db (topicKey t)
+def createChannelDB (db : DB) (t c : Name) : DB := addRegistration (addRegistration db (chanKey t c)) (topicKey t)
+
+/-! ### Handlers as lists of critical sections; schedules
+
+`atomic = false`: the sections of the tree as it is (each `RegistrationDB` method call is one);
+`atomic = true`: the sections with the proposed fix F18 (`RegisterProducer`, `RemoveTopic`,
+`AddTopicChannel`: one critical section per handler). `interleave` enumerates every schedule of
+two handlers running concurrently (each keeps its own order). -/
+
+abbrev Section := DB → DB
+
+def registerSecs (atomic : Bool) (p : Nat) (t c : Name) : List Section :=
+  if atomic then [fun db => registerDB db p ⟨t, c⟩]
+  else [fun db => regStep1 db t c p, fun db => regStep2 db t p]
+
+def deleteTopicSecs (atomic : Bool) (t : Name) : List Section :=
+  if atomic then [fun db => deleteTopicDB db t]
+  else [fun db => delTopicStep1 db t, fun db => delTopicStep2 db t]
+
+def createChannelSecs (atomic : Bool) (t c : Name) : List Section :=
+  if atomic then [fun db => createChannelDB db t c]
+  else [fun db => createChanStep1 db t c, fun db => createChanStep2 db t]
+
+def runSecs (db : DB) (l : List Section) : DB := l.foldl (fun d s => s d) db
+
+/-- all interleavings of two sequences (fuel = total length) -/
+def interleaveF {α : Type} : Nat → List α → List α → List (List α)
+  | 0, _, _ => [[]]
+  | _ + 1, [], ys => [ys]
+  | _ + 1, xs, [] => [xs]
+  | n + 1, x :: xs, y :: ys =>
+    (interleaveF n xs (y :: ys)).map (x :: ·) ++ (interleaveF n (x :: xs) ys).map (y :: ·)
+
+def interleave {α : Type} (xs ys : List α) : List (List α) := interleaveF (xs.length + ys.length) xs ys
+
 /-! ## One step of a history -/
 
 inductive Op
